@@ -73,6 +73,9 @@ def dataset(spec):
         "item_id": np.array([r[1] for r in spec["rows"]], dtype=np.int64),
         "rating": np.array([r[2] / 2.0 for r in spec["rows"]], dtype=np.float64),
     })
+    if spec.get("string_ids"):      # identifiers as text (their hash differs between interpreter processes)
+        df["user_id"] = ["u%d" % u for u in df["user_id"]]
+        df["item_id"] = ["i%d" % i for i in df["item_id"]]
     if spec.get("timestamps", True):
         df["timestamp"] = np.array([r[3] for r in spec["rows"]], dtype=np.int64)
     if spec.get("implicit"):
